@@ -23,9 +23,10 @@ PSpec == PInit /\ [][PNext]_pvars
 Indistinguishable == (started /\ quirk = {} /\ quirkB = {}) =>
                        (cen = cenB /\ k = kB /\ stage = stageB /\ energy = energyB /\ force = forceB /\ work = workB /\ tiout = tioutB)
 PView == <<mech, mechB, p, resumes, quirk, quirkB>>
-WitInit == TLCSet(1, FALSE) /\ TLCSet(2, FALSE)
-Wit == /\ ((resumes > 0 /\ quirkB = {} /\ workB # 0 /\ relB > 0) => TLCSet(1, TRUE))
-       /\ ((resumes > 0 /\ quirkB = {} /\ tioutB # <<>>) => TLCSet(2, TRUE))
-WitPost == TLCGet(1) /\ TLCGet(2)
-PSpecW == (PInit /\ WitInit) /\ [][PNext]_pvars
+\* vacuity witnesses: the check searches a state satisfying each Witness<i> (a violation of NoWitness<i>)
+Witness1 == resumes > 0 /\ quirkB = {} /\ workB # 0 /\ relB > 0
+NoWitness1 == ~Witness1
+Witness2 == resumes > 0 /\ quirkB = {} /\ tioutB # <<>>
+NoWitness2 == ~Witness2
+PSpecW == (PInit) /\ [][PNext]_pvars
 =============================================================================
